@@ -1,5 +1,5 @@
 //@PROBE file=src/trackers/sort/simple_api.rs test=verif_probe_tracker_history clauses=tracker_history
-//@BOUND SORT simple tracker: shards 1..2; IoU(0.1/0.3/0.6) and Mahalanobis; two scenes sharing an image region, 3 objects, 7 frames with gaps of 1 and 3 frames (max_idle 2), three interleavings of the second scene; two-frame gate histories around each IoU threshold; final expiry + wasted()
+//@BOUND the gate against the last ESTIMATED box (a lagging estimate, third detection swept across the threshold in steps of 0.25 px); SORT simple tracker: shards 1..2; IoU(0.1/0.3/0.6) and Mahalanobis; two scenes sharing an image region, 3 objects, 7 frames with gaps of 1 and 3 frames (max_idle 2), three interleavings of the second scene; two-frame gate histories around each IoU threshold; final expiry + wasted()
 #[cfg(test)]
 mod verif_probe_tracker_history {
     // Bounded stand-in for Sort::predict_with_scene / wasted (out of reach of both verifiers: worker
@@ -9,6 +9,7 @@ mod verif_probe_tracker_history {
     use crate::trackers::sort::PositionalMetricType::{IoU, Mahalanobis};
     use crate::trackers::tracker_api::TrackerAPI;
     use crate::utils::bbox::BoundingBox;
+    use crate::track::ObservationAttributes;
     use std::collections::{HashMap, HashSet};
 
     const SCENE: u64 = 7;
@@ -121,6 +122,25 @@ mod verif_probe_tracker_history {
         gate_conf(0.5, 2.0, 0.9, true, &mut failures);
         gate_conf(0.5, 2.0, 0.6, false, &mut failures);
         gate_conf(0.3, 2.0, 0.6, true, &mut failures);
+        // the gate compares the detection with the track's last ESTIMATED box (the predicted box of its latest record), not with the last raw
+        // detection: a track whose estimate lags its last detection (x = 0, then x = 5), then third-frame detections swept across the boundary
+        for thr in [0.3f32, 0.5] { for shards in 1usize..=2 { for k in 0..60 {
+            let x3 = 5.0 + 0.25 * k as f32;
+            let mut t = Sort::new(shards, 10, 2, IoU(thr), 0.05, None, 1.0 / 20.0, 1.0 / 160.0);
+            let mk = |x: f32| -> Universal2DBox { BoundingBox::new(x, 0.0, 10.0, 10.0).into() };
+            let id = t.predict_with_scene(1, &[(mk(0.0), None)])[0].id;
+            let r2 = t.predict_with_scene(1, &[(mk(5.0), None)]);
+            if r2[0].id != id { continue; }
+            let estimated = r2[0].predicted_bbox.clone();
+            let det = mk(x3);
+            let iou = Universal2DBox::calculate_metric_object(&Some(&det), &Some(&estimated)).unwrap_or(0.0);
+            if (iou - thr).abs() < 2e-3 { continue; } // too close to the boundary to call
+            let r3 = t.predict_with_scene(1, &[(det, None)]);
+            let continued = r3[0].id == id;
+            if continued != (iou >= thr) {
+                failures.push(format!("PROBE input: Sort IoU({}) shards={} track at x=0 then x=5 (estimate at x={}), third detection at x={}: tracker_history.gate_is_iou_with_the_last_estimated_box: IoU with the estimated box is {} but the track was {}", thr, shards, estimated.xc - 5.0, x3, iou, if continued { "continued" } else { "not continued" }));
+            }
+        } } }
         for f in failures.iter().take(40) { eprintln!("{}", f); }
         assert!(failures.is_empty(), "PROBE found {} failing inputs; first: {}", failures.len(), failures[0]);
     }
